@@ -14,8 +14,8 @@ import (
 // gosym: mode=int
 func VerifC16_v1simple_main() {
 	H := vParam("H", 2)
-	in := make(chan int, 1)
-	if vChoose("item", 2) == 1 {
+	in := make(chan int, 2)
+	for k := vChoose("items", 3); k > 0; k-- {
 		in <- vNondetInt("item")
 	}
 	handles := 0
@@ -27,11 +27,21 @@ func VerifC16_v1simple_main() {
 		running--
 	}
 	ctx, cancel := context.WithCancel(context.Background())
-	s, err := NewSimple(SimpleOpts[int]{Ctx: ctx, Divider: FairDivider, Handle: handle, HandlersQuantity: uint(H), Inputs: map[uint]<-chan int{1: in}})
+	how := vChoose("how", 4)
+	// how == 3: error termination - the divider is Fair at creation and over-allocates afterwards
+	divCalls := 0
+	dv := func(ps []uint, dividend uint, dist map[uint]uint) map[uint]uint {
+		out := FairDivider(ps, dividend, dist)
+		if how == 3 && divCalls >= 1 && len(ps) > 0 {
+			out[ps[0]]++
+		}
+		divCalls++
+		return out
+	}
+	s, err := NewSimple(SimpleOpts[int]{Ctx: ctx, Divider: dv, Handle: handle, HandlersQuantity: uint(H), Inputs: map[uint]<-chan int{1: in}})
 	vAssume(err == nil)
 	vAssert(vSpawnCount() == 2, "C19: NewSimple starts the scheduling goroutine of the wrapped discipline and its own main")
 	vAssert(vAnd(vSpawnedIs(0, "Discipline"), vSpawnedIs(1, "Simple")), "C19: goroutines started by NewSimple")
-	how := vChoose("how", 4)
 	then := vChoose("then", 3) // a second request while the first is still being served: none / Stop / cancel
 	requested := false
 	second := false
@@ -69,10 +79,9 @@ func VerifC16_v1simple_main() {
 			case 2:
 				vBreakSignal(s.graceful)
 			case 3:
-				// the wrapped discipline terminates on its own (divider error): run it with a stopped breaker as a stand-in
-				vBreakSignal(s.priority.breaker)
-				vRunSpawned(0)
+				// the wrapped discipline terminates on its own: its divider breaks the sum rule in the first round
 				prioDone = true
+				vRunSpawned(0)
 			}
 			return
 		}
@@ -103,8 +112,13 @@ func VerifC16_v1simple_main() {
 	})
 	vSinkWhenFull()
 	vLassoBound(40)
-	vExpect("LASSO", "fail:C16: Simple.Stop never completes (a goroutine spins)")
-	vExpect("BLOCKED", "fail:C16: Simple.Stop never completes (a goroutine blocks)")
+	if how == 3 {
+		vExpect("LASSO", "fail:C15/C19: after a divider fault the simplified discipline never completes (a goroutine spins)")
+		vExpect("BLOCKED", "fail:C15/C19: after a divider fault the simplified discipline never completes (a goroutine blocks), whether or not Err() is being read")
+	} else {
+		vExpect("LASSO", "fail:C16: Simple.Stop never completes (a goroutine spins)")
+		vExpect("BLOCKED", "fail:C16: Simple.Stop never completes (a goroutine blocks)")
+	}
 	vTickBudget(4)
 	vFairTicks()
 	vSleepBudget(2)
@@ -125,6 +139,12 @@ func VerifC16_v1simple_main() {
 	vAssert(running == 0, "C16: no Handle call is running after completion")
 	vAssert(vAnd(vIsClosed(s.err), vIsClosed(s.output), vIsClosed(s.feedback)), "C19: Simple.main closes err, output and feedback")
 	_ = handles
+	if how == 3 && then == 0 {
+		vAssert(len(s.err) == 1, "C15: the simplified discipline leaves exactly one error value on Err()")
+		v, ok := <-s.err
+		vAssert(vAnd(ok, v == ErrDividerBad), "C15: the simplified discipline reports ErrDividerBad")
+		vReach("error termination")
+	}
 }
 
 // Simple.handler: receive -> Handle(that item) -> feed back that item's priority; every
